@@ -27,7 +27,15 @@
 //!      as it is selected, list elements in order and none split;
 //!  (5) each selected event exactly once, event numbers strictly ascending over the whole answer.
 //!
-//! Sub-checks: `read`, `subscribe`, `report` (proptest), `sweep` (enumerated: 7 request shapes x
+//! Sub-check `oversize`: 1-3 scalar values, one list element or one event payload exceed what fits
+//! an empty chunk by 1..=400 octets (from the start or with the later changes). The statement cannot
+//! hold literally for such a value; the oracle is the weak one: the answer ends within 4 + 2 per
+//! oversize occurrence + the messages the other content needs, no two consecutive empty messages,
+//! (1)-(3) hold, every OTHER selected attribute / event appears exactly once, the oversize item
+//! never appears as data and is answered with a non-success status for its path (attributes:
+//! required; events: optional) or the interaction is ended with a non-success StatusResponse.
+//!
+//! Sub-checks: `read`, `subscribe`, `report`, `oversize` (proptest), `sweep` (enumerated: 7 request shapes x
 //! every delta in -40..=40).
 //!
 //! Hook (add-only, cfg(feature = "verif")): `Events::verif_stored_event_numbers` (read-only), used
@@ -157,6 +165,46 @@ struct Later {
     pivot: Option<Pivot>,
 }
 
+#[derive(Debug, Clone, Copy, PartialEq, Eq, Serialize, Deserialize)]
+enum OverKind {
+    /// scalar attribute value(s)
+    Scalar,
+    /// one element of a list attribute
+    Element,
+    /// one event payload
+    Event,
+}
+
+/// Sub-check `oversize`: values that do not fit even an empty chunk.
+#[derive(Debug, Clone, PartialEq, Eq, Serialize, Deserialize)]
+struct Over {
+    kind: OverKind,
+    /// (selector, octets beyond the largest value whose report fits an empty chunk: >= 1)
+    items: Vec<(u16, u16)>,
+    /// `Kind::Report` only: the value becomes oversize with the later changes
+    later: bool,
+}
+
+/// What was made oversize in one phase.
+#[derive(Debug, Clone, Default)]
+struct OverInfo {
+    scalars: BTreeSet<Key>,
+    /// list attribute -> index of the oversize element
+    elems: BTreeMap<Key, usize>,
+    /// payload indices of oversize events
+    events: BTreeSet<usize>,
+    event_paths: BTreeSet<Path>,
+}
+
+impl OverInfo {
+    fn is_empty(&self) -> bool {
+        self.scalars.is_empty() && self.elems.is_empty() && self.events.is_empty()
+    }
+    fn count(&self) -> usize {
+        self.scalars.len() + self.elems.len() + self.events.len()
+    }
+}
+
 #[derive(Debug, Clone, Serialize, Deserialize)]
 struct C14Case {
     node: Vec<EpDef>,
@@ -173,6 +221,8 @@ struct C14Case {
     later: Option<Later>,
     sched: Option<u64>,
     seed: u32,
+    #[serde(default)]
+    over: Option<Over>,
 }
 
 // ---------------------------------------------------------------------------------------------
@@ -542,6 +592,8 @@ struct AttrExpect {
     counts: BTreeMap<Key, (usize, usize)>,
     /// concrete paths that do not exist: that many status reports
     statuses: BTreeMap<Path, usize>,
+    /// sub-check `oversize`: how often an oversize attribute is selected (at most that many statuses)
+    over_max: BTreeMap<Key, usize>,
 }
 
 #[derive(Clone)]
@@ -637,6 +689,8 @@ struct EventExpect {
     /// concrete event paths whose event id does not exist on an existing cluster (either way)
     optional_statuses: BTreeSet<Path>,
     units: Vec<Unit>,
+    /// sub-check `oversize`: events that need not be reported
+    optional: BTreeSet<u64>,
 }
 
 /// `emits`: (definition, assigned number, index for the payload pattern). `stored`: the numbers
@@ -812,6 +866,8 @@ struct World {
     later: Option<LaterWorld>,
     /// human-readable account of the aiming
     notes: Vec<String>,
+    over_main: OverInfo,
+    over_later: OverInfo,
 }
 
 #[derive(Debug, Clone, Copy, PartialEq, Eq)]
@@ -957,7 +1013,143 @@ fn materialize(case: &C14Case) -> World {
         }
         _ => None,
     };
-    World { st, emits, later, notes }
+    let mut w = World { st, emits, later, notes, over_main: OverInfo::default(), over_later: OverInfo::default() };
+    apply_over(case, &mut w);
+    w
+}
+
+/// Sub-check `oversize`: make the selected values larger than what fits an empty chunk of a read
+/// answer (the roomiest kind of chunk), by the given number of octets.
+fn apply_over(case: &C14Case, w: &mut World) {
+    let Some(o) = &case.over else { return };
+    apply_over_inner(case, o, w);
+    // what is oversize from the start stays oversize (and is reported as such) after the later changes
+    let World { st, later, over_main, over_later, .. } = w;
+    if let (Some(l), false) = (later.as_mut(), over_main.is_empty()) {
+        for k in over_main.scalars.iter().chain(over_main.elems.keys()) {
+            l.st.values.insert(*k, st.values[k].clone());
+        }
+        over_later.scalars.extend(over_main.scalars.iter().copied());
+        over_later.elems.extend(over_main.elems.iter().map(|(k, v)| (*k, *v)));
+        l.set = l.st.values.iter().filter(|(k, v)| st.values.get(*k) != Some(*v)).map(|(k, v)| (*k, v.clone())).collect();
+    }
+}
+
+fn apply_over_inner(case: &C14Case, o: &Over, w: &mut World) {
+    let World { st, emits, later, notes, over_main, over_later } = w;
+    let base_values = st.values.clone();
+    let in_later = o.later && case.kind == Kind::Report && later.is_some();
+    let (st, emits, info, idx0, first_no, gen, dv_plus): (&mut State, &mut Vec<EmitDef>, &mut OverInfo, usize, u64, u32, u32) = match later.as_mut() {
+        Some(l) if in_later => {
+            let n = emits.len();
+            (&mut l.st, &mut l.emits, over_later, n, n as u64 + 1, 1, 1)
+        }
+        _ => (st, emits, over_main, 0, 1, 0, 0),
+    };
+    let selected: Vec<Key> = st.keys().into_iter().filter(|k| case.attrs.as_ref().is_some_and(|ps| ps.iter().any(|p| p.matches(k.0, k.1, k.2)))).collect();
+    let scalars: Vec<Key> = selected.iter().copied().filter(|k| matches!(st.values.get(k), Some(Value::Scalar(_)))).collect();
+    let lists: Vec<Key> = selected.iter().copied().filter(|k| matches!(st.values.get(k), Some(Value::List(_)))).collect();
+    let evs: Vec<usize> = (0..emits.len()).filter(|i| case.events.as_ref().is_some_and(|ps| ps.iter().any(|p| p.matches(emits[*i].ep, emits[*i].cl, emits[*i].ev)))).collect();
+    let fits = |size: usize| 3 + size <= boundary();
+    let mut kind = o.kind;
+    if (kind == OverKind::Element && lists.is_empty()) || (kind == OverKind::Event && evs.is_empty()) {
+        if std::env::var("C14_OVER_KIND").is_ok() {
+            // debugging aid (one kind forced): no fall-back, nothing is oversize in this case
+            return;
+        }
+        kind = OverKind::Scalar;
+    }
+    match kind {
+        OverKind::Scalar => {
+            for (sel, extra) in &o.items {
+                if scalars.is_empty() {
+                    break;
+                }
+                let k = scalars[pick(*sel, scalars.len())];
+                let dv = st.datavers[&(k.0, k.1)].wrapping_add(dv_plus);
+                let fit = (0..=boundary()).take_while(|v| fits(scalar_report_size(dv, k, *v))).last().unwrap_or(0);
+                let n = fit + (*extra).max(1) as usize;
+                st.values.insert(k, Value::Scalar(pat(k.0, k.1, k.2, 0, gen, n)));
+                info.scalars.insert(k);
+                notes.push(format!("oversize scalar {k:?}: {n} octets (the largest that fits an empty chunk is {fit})"));
+            }
+        }
+        OverKind::Element => {
+            if let Some((sel, extra)) = o.items.first() {
+                let k = lists[pick(*sel, lists.len())];
+                let dv = st.datavers[&(k.0, k.1)].wrapping_add(dv_plus);
+                let fit = (0..=boundary()).take_while(|v| fits(item_report_size(dv, k, *v))).last().unwrap_or(0);
+                let n = fit + (*extra).max(1) as usize;
+                if let Some(Value::List(items)) = st.values.get_mut(&k) {
+                    if items.is_empty() {
+                        items.push(vec![]);
+                    }
+                    let idx = pick(sel.rotate_left(5), items.len());
+                    items[idx] = pat(k.0, k.1, k.2, idx as u32 + 1, gen, n);
+                    info.elems.insert(k, idx);
+                    notes.push(format!("oversize element {idx} of list {k:?} ({} elements): {n} octets (the largest that fits an empty chunk is {fit})", items.len()));
+                }
+            }
+        }
+        OverKind::Event => {
+            if let Some((sel, extra)) = o.items.first() {
+                let i = evs[pick(*sel, evs.len())];
+                let number = first_no + i as u64;
+                let fit = (0..=boundary()).take_while(|v| fits(event_report_size(&EmitDef { size: *v as u16, ..emits[i].clone() }, number))).last().unwrap_or(0);
+                // the event must still fit the event ring of the device
+                let n = (fit + (*extra).max(1) as usize).min(RIG_EVENTS_BUF - 80);
+                emits[i].size = n as u16;
+                info.events.insert(idx0 + i);
+                info.event_paths.insert(Path::concrete(emits[i].ep, emits[i].cl, emits[i].ev));
+                notes.push(format!("oversize event {i}: payload of {n} octets (the largest that fits an empty chunk is {fit})"));
+            }
+        }
+    }
+    if in_later {
+        if let Some(l) = later.as_mut() {
+            for k in info.scalars.iter().chain(info.elems.keys()) {
+                if !l.notify.contains(k) {
+                    l.notify.push(*k);
+                }
+                l.changed.insert(*k);
+            }
+            l.set = l.st.values.iter().filter(|(k, v)| base_values.get(*k) != Some(*v)).map(|(k, v)| (*k, v.clone())).collect();
+        }
+    }
+}
+
+/// Remove the oversize items from the expectations: the units of the packing simulation cover the
+/// OTHER content only, an oversize scalar must not be reported as data, an oversize event not at
+/// all. Returns the oversize attributes that must be answered somehow (those that are selected
+/// and not hidden by a matching data-version filter).
+fn adjust_for_over(ax: &mut Option<AttrExpect>, ex: &mut Option<EventExpect>, info: &OverInfo, over_numbers: &BTreeSet<u64>) -> BTreeSet<Key> {
+    let mut required = BTreeSet::new();
+    if let Some(a) = ax.as_mut() {
+        a.units.retain(|u| !matches!(&u.kind, UnitKind::Scalar(k) if info.scalars.contains(k)));
+        for u in a.units.iter_mut() {
+            if let UnitKind::List(k) = &u.kind {
+                if let Some(idx) = info.elems.get(k) {
+                    u.items.truncate(*idx);
+                    u.whole = 1 << 30;
+                }
+            }
+        }
+        for k in info.scalars.iter().chain(info.elems.keys()) {
+            if let Some(c) = a.counts.get_mut(k) {
+                a.over_max.insert(*k, c.1);
+                if c.0 > 0 {
+                    required.insert(*k);
+                }
+                // should the device manage to deliver the value after all, that is fine too
+                c.0 = 0;
+            }
+        }
+    }
+    if let Some(e) = ex.as_mut() {
+        e.optional = over_numbers.clone();
+        e.units.retain(|u| !matches!(&u.kind, UnitKind::Event(i) if info.events.contains(i)));
+    }
+    required
 }
 
 fn node_spec(node: &[EpDef]) -> NodeSpec {
@@ -1025,6 +1217,7 @@ fn note_device_error(msg: &str) {
 fn run_case(case: &C14Case, w: &World) -> Result<Obs, Case> {
     vh::sim::reset_universe();
     ABANDONED.with(|a| *a.borrow_mut() = None);
+    set_chunk_cap(chunk_cap(case, w));
     let spec = node_spec(&case.node);
     let node = SynthNode::new(&spec);
     for (k, v) in &w.st.values {
@@ -1135,6 +1328,8 @@ struct Stats {
     chunks: usize,
     near_boundary: bool,
     list_split: bool,
+    /// sub-check `oversize`: the device ended the interaction with a (non-success) StatusResponse
+    terminated: bool,
 }
 
 impl Stats {
@@ -1168,6 +1363,10 @@ struct Phase<'a> {
     ax: Option<AttrExpect>,
     ex: Option<EventExpect>,
     sim: Sim,
+    /// sub-check `oversize`: what cannot be delivered in this phase, and which of it must be
+    /// answered with a status (or by terminating the interaction)
+    over: OverInfo,
+    over_required: BTreeSet<Key>,
 }
 
 /// Oracles (1) and (3) on the messages of one answer; returns the layouts.
@@ -1214,6 +1413,20 @@ fn check_messages(ph: &Phase<'_>, out: &ReadOutcome, obs: &Obs, stats: &mut Stat
             _ if last_more == Some(true) && silent => (format!("flow:{what}:more-chunks-announced-but-nothing-follows"), detail),
             _ => (format!("flow:{what}:no-answer"), detail),
         });
+    }
+    if let (Some(s), false) = (out.status, ph.over.is_empty()) {
+        // a value that cannot be delivered at all: ending the interaction with an error status is
+        // an acceptable outcome; what was delivered before is still checked
+        if s == 0 {
+            return Err((format!("oversize:{what}:success-status-instead-of-report"), format!("StatusResponse {s:#x} after {} ReportData message(s)", out.chunks)));
+        }
+        if let Some(i) = layouts.iter().position(|l| !l.more) {
+            return Err((format!("flow:{what}:message-after-the-final-one"), format!("message {i} has no MoreChunkedMessages but a StatusResponse {s:#x} followed")));
+        }
+        stats.terminated = true;
+        stats.label(format!("oversize:{what}:terminated-by-status"));
+        stats.chunks = stats.chunks.max(layouts.len());
+        return Ok(layouts);
     }
     if let Some(s) = out.status {
         return Err((format!("flow:{what}:status-response-instead-of-report"), format!("StatusResponse {s:#x} after {} ReportData message(s); device-side error: {:?}", out.chunks, obs.abandoned)));
@@ -1278,6 +1491,8 @@ fn check_attrs(ph: &Phase<'_>, out: &ReadOutcome, stats: &mut Stats) -> Result<(
     let folded = fold_lists(&out.attrs).map_err(|e| (format!("content:{what}:list-element-without-list"), e))?;
     let mut seen: BTreeMap<Key, usize> = BTreeMap::new();
     let mut seen_status: BTreeMap<Path, usize> = BTreeMap::new();
+    let mut over_status: BTreeMap<Key, usize> = BTreeMap::new();
+    let mut delivered: BTreeSet<Key> = BTreeSet::new();
     for (p, body) in &folded {
         match body {
             ReportBody::Data { value, .. } => {
@@ -1288,6 +1503,28 @@ fn check_attrs(ph: &Phase<'_>, out: &ReadOutcome, stats: &mut Stats) -> Result<(
                 let Some(want) = ph.st.values.get(&key) else {
                     return Err((format!("content:{what}:data-for-nonexistent-attribute"), format!("{p:?} = {}", brief(value))));
                 };
+                if ph.over.scalars.contains(&key) || ph.over.elems.contains_key(&key) {
+                    if Value::from_val(value).as_ref() == Some(want) {
+                        // delivered after all (the chunk capacity is the device's business as long
+                        // as the datagram limit holds): counts as answered
+                        *over_status.entry(key).or_insert(0) += 0;
+                        delivered.insert(key);
+                        stats.label(format!("oversize:{what}:delivered-after-all"));
+                    }
+                }
+                if let (Some(idx), Some(Value::List(got)), Value::List(want)) = (ph.over.elems.get(&key), Value::from_val(value), want) {
+                    // the whole list, the list up to the oversize element, or the list without it
+                    let mut without = want.clone();
+                    without.remove(*idx);
+                    if got != *want && got[..] != want[..*idx] && got != without {
+                        return Err((format!("oversize:{what}:list-with-oversize-element-garbled"), format!("{p:?}: got {} elements {:?}, the original has {} with the oversize one at {idx}", got.len(), got.iter().map(|x| x.len()).collect::<Vec<_>>(), want.len())));
+                    }
+                    if !ax.counts.contains_key(&key) {
+                        return Err((format!("content:{what}:data-not-selected"), format!("{p:?} is not selected by the request")));
+                    }
+                    *seen.entry(key).or_insert(0) += 1;
+                    continue;
+                }
                 if !ax.counts.contains_key(&key) {
                     return Err((format!("content:{what}:data-not-selected"), format!("{p:?} = {} is not selected by the request", brief(value))));
                 }
@@ -1307,6 +1544,16 @@ fn check_attrs(ph: &Phase<'_>, out: &ReadOutcome, stats: &mut Stats) -> Result<(
                 *seen.entry(key).or_insert(0) += 1;
             }
             ReportBody::Status(s) => {
+                if let (Some(e), Some(c), Some(a)) = (p.endpoint, p.cluster, p.leaf) {
+                    if ph.over.scalars.contains(&(e, c, a)) || ph.over.elems.contains_key(&(e, c, a)) {
+                        if *s == 0 {
+                            return Err((format!("oversize:{what}:success-status-for-oversize-value"), format!("{p:?}")));
+                        }
+                        *over_status.entry((e, c, a)).or_insert(0) += 1;
+                        stats.label(format!("oversize:{what}:status-{s:#x}-for-the-path"));
+                        continue;
+                    }
+                }
                 if !ax.statuses.contains_key(p) {
                     return Err((format!("content:{what}:unexpected-status"), format!("status {s:#x} for {p:?}")));
                 }
@@ -1319,15 +1566,31 @@ fn check_attrs(ph: &Phase<'_>, out: &ReadOutcome, stats: &mut Stats) -> Result<(
     }
     for (k, (min, max)) in &ax.counts {
         let n = seen.get(k).copied().unwrap_or(0);
-        if n < *min {
+        if n < *min && !stats.terminated {
             return Err((format!("content:{what}:attribute-missing"), format!("{k:?} ({}) is selected {min} time(s) but reported {n} time(s); {} chunk(s)", brief(&ph.st.values[k].to_val()), out.chunks)));
         }
         if n > *max {
             return Err((format!("content:{what}:attribute-duplicated"), format!("{k:?} ({}) is selected {max} time(s) but reported {n} time(s); {} chunk(s)", brief(&ph.st.values[k].to_val()), out.chunks)));
         }
     }
+    if !stats.terminated {
+        for k in &ph.over_required {
+            if over_status.get(k).copied().unwrap_or(0) == 0 && !delivered.contains(k) {
+                return Err((format!("oversize:{what}:oversize-value-silently-omitted"), format!("{k:?} ({}) cannot fit a message; the answer completed without a status for it", brief(&ph.st.values[k].to_val()))));
+            }
+        }
+    }
+    for (k, n) in &over_status {
+        let max = ax.over_max.get(k).copied().unwrap_or(0);
+        if *n > max {
+            return Err((format!("oversize:{what}:status-duplicated"), format!("{k:?}: {n} status reports, selected {max} time(s)")));
+        }
+    }
     for (p, want) in &ax.statuses {
         let n = seen_status.get(p).copied().unwrap_or(0);
+        if stats.terminated && n <= *want {
+            continue;
+        }
         if n != *want {
             return Err((format!("content:{what}:status-count"), format!("{p:?} does not exist and is requested {want} time(s) but {n} status report(s) arrived")));
         }
@@ -1343,6 +1606,7 @@ fn check_events(ph: &Phase<'_>, out: &ReadOutcome, stats: &mut Stats) -> Result<
     let mut last: Option<u64> = None;
     let mut got = BTreeSet::new();
     let mut seen_status: BTreeMap<Path, usize> = BTreeMap::new();
+    let mut over_status = 0usize;
     for e in &out.events {
         match &e.body {
             EventBody::Data { number, priority, value } => {
@@ -1366,6 +1630,17 @@ fn check_events(ph: &Phase<'_>, out: &ReadOutcome, stats: &mut Stats) -> Result<
                     return Err((format!("events:{what}:wrong-event-content"), format!("event number {number}: got {:?} priority {priority} {}, emitted {p:?} priority {prio} {}", e.path, brief(value), brief(payload))));
                 }
             }
+            EventBody::Status(s) if ph.over.event_paths.contains(&e.path) && !ex.statuses.contains_key(&e.path) => {
+                // an event that cannot fit a message may be answered with an error status
+                if *s == 0 {
+                    return Err((format!("oversize:{what}:success-status-for-oversize-event"), format!("{:?}", e.path)));
+                }
+                over_status += 1;
+                if over_status > ph.over.events.len() {
+                    return Err((format!("oversize:{what}:event-status-duplicated"), format!("{over_status} status reports for {:?}", e.path)));
+                }
+                stats.label(format!("oversize:{what}:status-{s:#x}-for-the-event"));
+            }
             EventBody::Status(s) => {
                 if !(ex.statuses.contains_key(&e.path) || ex.optional_statuses.contains(&e.path)) {
                     return Err((format!("events:{what}:unexpected-status"), format!("status {s:#x} for {:?}", e.path)));
@@ -1377,12 +1652,18 @@ fn check_events(ph: &Phase<'_>, out: &ReadOutcome, stats: &mut Stats) -> Result<
             }
         }
     }
+    if stats.terminated {
+        return Ok(got);
+    }
     for (p, want) in &ex.statuses {
         if seen_status.get(p).copied().unwrap_or(0) != *want {
             return Err((format!("events:{what}:status-count"), format!("{p:?} does not exist, requested {want} time(s), {} status report(s)", seen_status.get(p).copied().unwrap_or(0))));
         }
     }
-    if let Some(n) = ex.by_number.keys().find(|n| !got.contains(n)) {
+    if stats.terminated {
+        return Ok(got);
+    }
+    if let Some(n) = ex.by_number.keys().find(|n| !got.contains(n) && !ex.optional.contains(n)) {
         return Err((format!("events:{what}:event-missing"), format!("event number {n} {:?} is selected and stored but not reported; reported: {got:?}; {} chunk(s)", ex.by_number[n].0, out.chunks)));
     }
     if !ex.by_number.is_empty() {
@@ -1444,6 +1725,53 @@ fn check_phase(ph: &Phase<'_>, out: &ReadOutcome, obs: &Obs, stats: &mut Stats) 
     Ok(got)
 }
 
+/// Sub-check `oversize`: how many messages the OTHER content needs by the packing simulation.
+fn predicted_messages(sim: &Sim) -> usize {
+    sim.ends.len() + usize::from(sim.abandon.is_some())
+}
+
+/// Sub-check `oversize`: the answer is bounded (4 + 2 per occurrence of an oversize item + what
+/// the other content needs) and never repeats an empty message.
+fn check_bound(ph: &Phase<'_>, out: &ReadOutcome) -> Result<(), Fail> {
+    if ph.over.is_empty() {
+        return Ok(());
+    }
+    let what = ph.name;
+    // every occurrence of an oversize item (an attribute selected by k paths occurs k times) may
+    // cost a message of its own
+    let occurrences = ph.ax.as_ref().map(|a| a.over_max.values().sum::<usize>()).unwrap_or(0) + ph.over.events.len();
+    let bound = predicted_messages(&ph.sim) + 4 + 2 * occurrences.max(ph.over.count());
+    if out.raw.len() > bound {
+        return Err((format!("oversize:{what}:too-many-messages"), format!("{} ReportData messages; the content that fits needs {} by the packing simulation (bound {bound})", out.raw.len(), predicted_messages(&ph.sim))));
+    }
+    let empty: Vec<bool> = out.raw.iter().map(|r| layout(r).map(|l| l.attr_items.is_empty() && l.event_items.is_empty()).unwrap_or(false)).collect();
+    if let Some(i) = empty.windows(2).position(|w| w[0] && w[1]) {
+        return Err((format!("oversize:{what}:empty-message-repeated"), format!("messages {i} and {} carry no report at all", i + 1)));
+    }
+    Ok(())
+}
+
+/// Sub-check `oversize`: after how many ReportData messages the controller gives an answer up
+/// (generous: everything, including the oversize items at their real size, one item per message).
+fn chunk_cap(case: &C14Case, w: &World) -> usize {
+    if w.over_main.is_empty() && w.over_later.is_empty() {
+        return MAX_CHUNKS;
+    }
+    let paths = case.attrs.as_ref().map(|p| p.len()).unwrap_or(0).max(1);
+    let octets = |st: &State| -> usize {
+        st.values
+            .values()
+            .map(|v| match v {
+                Value::Scalar(b) => b.len() + 40,
+                Value::List(l) => l.iter().map(|i| i.len() + 40).sum::<usize>() + 80,
+            })
+            .sum::<usize>()
+    };
+    let attrs = octets(&w.st).max(w.later.as_ref().map(|l| octets(&l.st)).unwrap_or(0)) * paths;
+    let events = w.emits.iter().chain(w.later.iter().flat_map(|l| l.emits.iter())).map(|e| e.size as usize + 64).sum::<usize>();
+    ((attrs + events) / 400 + 16).min(MAX_CHUNKS)
+}
+
 fn describe(case: &C14Case, w: &World) -> String {
     let mut sizes = Vec::new();
     for (k, v) in &w.st.values {
@@ -1489,12 +1817,26 @@ fn check(case: &C14Case) -> Case {
     if obs.stored_main.len() < w.emits.len() {
         stats.label("events:some-evicted-before-the-request");
     }
+    let (mut ax, mut ex) = (ax, ex);
+    let over_numbers: BTreeSet<u64> = numbered_main.iter().filter(|(_, _, i)| w.over_main.events.contains(i)).map(|(_, n, _)| *n).collect();
+    let over_required = adjust_for_over(&mut ax, &mut ex, &w.over_main, &over_numbers);
     let sim = simulate(ax.as_ref().map(|a| a.units.as_slice()), ex.as_ref().map(|e| e.units.as_slice()), subscription);
-    let main = Phase { name: if subscription { "priming" } else { "read" }, subscription, expect_sub_id: None, st: &w.st, ax, ex, sim };
+    let main = Phase { name: if subscription { "priming" } else { "read" }, subscription, expect_sub_id: None, st: &w.st, ax, ex, sim, over: w.over_main.clone(), over_required };
     if let Err(f) = check_phase(&main, &obs.main, &obs, &mut stats) {
         return fail(f);
     }
-    if subscription {
+    if let Err(f) = check_bound(&main, &obs.main) {
+        return fail(f);
+    }
+    if !w.over_main.is_empty() {
+        stats.label(if stats.terminated { "oversize:main:interaction-terminated" } else { "oversize:main:answer-completed" });
+    }
+    if subscription && stats.terminated {
+        // the subscription was refused: nothing follows
+        if obs.main.subscribed.is_some() {
+            return fail(("oversize:priming:subscribe-response-after-error-status".into(), "a StatusResponse ended the priming but a SubscribeResponse followed".into()));
+        }
+    } else if subscription {
         let Some((id, _)) = obs.main.subscribed else {
             return fail(("flow:priming:no-subscribe-response".into(), "the priming report ended but no SubscribeResponse followed".into()));
         };
@@ -1518,7 +1860,10 @@ fn check(case: &C14Case) -> Case {
                 e.statuses.clear();
                 e
             });
-            let expects_something = ax.as_ref().is_some_and(|a| a.counts.values().any(|(min, _)| *min > 0)) || ex.as_ref().is_some_and(|e| !e.by_number.is_empty());
+            let (mut ax, mut ex) = (ax, ex);
+            let over_numbers: BTreeSet<u64> = numbered_later.iter().filter(|(_, _, i)| w.over_later.events.contains(i)).map(|(_, n, _)| *n).collect();
+            let over_required = adjust_for_over(&mut ax, &mut ex, &w.over_later, &over_numbers);
+            let expects_something = ax.as_ref().is_some_and(|a| a.counts.values().any(|(min, _)| *min > 0)) || ex.as_ref().is_some_and(|e| !e.by_number.is_empty()) || !over_required.is_empty();
             let sim = simulate(ax.as_ref().map(|a| a.units.as_slice()), ex.as_ref().map(|e| e.units.as_slice()), true);
             if obs.reports.is_empty() {
                 if expects_something {
@@ -1536,7 +1881,7 @@ fn check(case: &C14Case) -> Case {
                 // union of the reports (a device may split the changes over several reports)
                 let mut union = ReadOutcome::default();
                 for (ri, r) in obs.reports.iter().enumerate() {
-                    let ph = Phase { name: "report", subscription: true, expect_sub_id: Some(id as u64), st: &lw.st, ax: None, ex: None, sim: if ri == 0 { sim.clone() } else { Sim::default() } };
+                    let ph = Phase { name: "report", subscription: true, expect_sub_id: Some(id as u64), st: &lw.st, ax: None, ex: None, sim: if ri == 0 { sim.clone() } else { Sim::default() }, over: OverInfo::default(), over_required: BTreeSet::new() };
                     let mut scratch = Stats::default();
                     let layouts = match check_messages(&ph, r, &obs, &mut scratch) {
                         Ok(l) => l,
@@ -1544,7 +1889,10 @@ fn check(case: &C14Case) -> Case {
                     };
                     stats.chunks = stats.chunks.max(layouts.len());
                     if ri == 0 {
-                        let ph = Phase { name: "report", subscription: true, expect_sub_id: Some(id as u64), st: &lw.st, ax: None, ex: None, sim: sim.clone() };
+                        let ph = Phase { name: "report", subscription: true, expect_sub_id: Some(id as u64), st: &lw.st, ax: ax.clone(), ex: None, sim: sim.clone(), over: w.over_later.clone(), over_required: BTreeSet::new() };
+                        if let Err(f) = check_bound(&ph, r) {
+                            return fail(f);
+                        }
                         boundary_stats(&ph, r, &layouts, &mut stats);
                     }
                     let base = union.chunks;
@@ -1561,7 +1909,10 @@ fn check(case: &C14Case) -> Case {
                 if obs.reports.len() > 1 {
                     stats.label("report:several-reports");
                 }
-                let ph = Phase { name: "report", subscription: true, expect_sub_id: Some(id as u64), st: &lw.st, ax, ex, sim };
+                let ph = Phase { name: "report", subscription: true, expect_sub_id: Some(id as u64), st: &lw.st, ax, ex, sim, over: w.over_later.clone(), over_required };
+                if !w.over_later.is_empty() {
+                    stats.label("oversize:report:answer-completed");
+                }
                 if let Err(f) = check_attrs(&ph, &union, &mut stats) {
                     return fail(f);
                 }
@@ -1582,7 +1933,25 @@ fn check(case: &C14Case) -> Case {
     if case.events.is_some() && !w.emits.is_empty() {
         stats.label("with-events");
     }
-    let nontrivial = (stats.chunks >= 2 && stats.near_boundary) || stats.list_split;
+    let mut nontrivial = (stats.chunks >= 2 && stats.near_boundary) || stats.list_split;
+    if case.over.is_some() {
+        // sub-check `oversize`: non-trivial = an oversize item was really selected by the request
+        let n = w.over_main.count() + w.over_later.count();
+        nontrivial = n > 0;
+        if !w.over_main.scalars.is_empty() || !w.over_later.scalars.is_empty() {
+            stats.label(format!("oversize:scalars:{}", w.over_main.scalars.len().max(w.over_later.scalars.len())));
+        }
+        if !w.over_main.elems.is_empty() || !w.over_later.elems.is_empty() {
+            stats.label("oversize:list-element");
+        }
+        if !w.over_main.events.is_empty() || !w.over_later.events.is_empty() {
+            stats.label("oversize:event");
+        }
+        if n == 0 {
+            stats.label("oversize:nothing-applicable");
+        }
+        stats.label(if !w.over_later.is_empty() && w.over_main.is_empty() { "oversize:in-later-report-only" } else { "oversize:from-the-start" });
+    }
     Case::pass(nontrivial).labels(stats.labels)
 }
 
@@ -1754,7 +2123,7 @@ fn build(node: Vec<EpDef>, r: RawReq, who: Who, kind: Kind, pivot: Option<Pivot>
         }
     }
     let emits = if events.is_some() { emit_defs(&node, &r.emits) } else { emit_defs(&node, &r.emits[..r.emits.len().min(2)]) };
-    C14Case { node, who, kind, attrs, events, dv_filters, event_min: r.event_min.map(|m| m as u64), fabric_filtered: r.fabric_filtered, emits, pivot, later, sched, seed }
+    C14Case { node, who, kind, attrs, events, dv_filters, event_min: r.event_min.map(|m| m as u64), fabric_filtered: r.fabric_filtered, emits, pivot, later, sched, seed, over: None }
 }
 
 fn sched() -> impl Strategy<Value = Option<u64>> {
@@ -1780,6 +2149,45 @@ fn report_case() -> impl Strategy<Value = C14Case> {
         let emits = emit_defs(&node, &raw_later);
         let later = Later { all, changes, emits, pivot: lpivot };
         build(node, r, Who::Case, Kind::Report, pivot, Some(later), sched, seed)
+    })
+}
+
+/// Sub-check `oversize`: an ordinary case in which one to three scalar values, one list element
+/// or one event payload exceed what fits an empty chunk by 1..=400 octets.
+fn oversize_case() -> impl Strategy<Value = C14Case> {
+    let extra = prop_oneof![3 => 1u16..=3, 2 => 4u16..=40, 2 => 41u16..=400];
+    let over = (
+        prop_oneof![3 => Just(OverKind::Scalar), 2 => Just(OverKind::Element), 2 => Just(OverKind::Event)],
+        prop::collection::vec((any::<u16>(), extra), 1..=3),
+        any::<bool>(),
+    );
+    let base = prop_oneof![2 => read_case(), 1 => subscribe_case(), 2 => report_case()];
+    (base, over).prop_map(|(mut c, (kind, mut items, later))| {
+        // debugging aid: force one kind
+        let kind = match std::env::var("C14_OVER_KIND").as_deref() {
+            Ok("scalar") => OverKind::Scalar,
+            Ok("element") => OverKind::Element,
+            Ok("event") => OverKind::Event,
+            _ => kind,
+        };
+        let all = Path::new(None, None, None);
+        if kind != OverKind::Scalar {
+            items.truncate(1);
+        }
+        match kind {
+            OverKind::Event => {
+                if c.events.is_none() {
+                    c.events = Some(vec![all]);
+                }
+            }
+            _ => {
+                if c.attrs.is_none() {
+                    c.attrs = Some(vec![all]);
+                }
+            }
+        }
+        c.over = Some(Over { kind, items, later });
+        c
     })
 }
 
@@ -1820,6 +2228,7 @@ fn sweep_cases(thorough: bool) -> Vec<C14Case> {
         later,
         sched: None,
         seed: 1,
+        over: None,
     };
     let mut out = Vec::new();
     let sels: &[u16] = if thorough { &[0xffff, 0x8000, 0x4000, 0xc000, 0x2000] } else { &[0xffff, 0x8000] };
@@ -1918,9 +2327,11 @@ fn main() {
         return;
     }
     let (n_read, n_sub, n_rep) = (run.cases(24_000, 600_000), run.cases(12_000, 300_000), run.cases(8_000, 200_000));
+    let n_over = run.cases(8_000, 200_000);
     run.exhaustive("sweep", sweep_cases(thorough), check);
     run.prop("read", n_read, read_case, check);
     run.prop("subscribe", n_sub, subscribe_case, check);
     run.prop("report", n_rep, report_case, check);
+    run.prop("oversize", n_over, oversize_case, check);
     run.finish();
 }
